@@ -5,7 +5,8 @@
 # /verif/seeded/<Cxx>-2<v>/, applies it to /repo, runs our checks, reverts /repo.
 set -u
 ID=$1; V=$2; shift; shift
-WT=/tmp/seed2/$ID; SD=$WT/_out/$V; DST=/verif/seeded/$ID-2$V
+ROOT=${SEEDROOT:-/tmp/seed2}; ROUND=${ROUND:-2}
+WT=$ROOT/$ID; SD=$WT/_out/$V; DST=/verif/seeded/$ID-$ROUND$V
 ENVV="PYTHONPATH=$WT/src APP_ENV=local DATA_ENV=dev MODEL_S3_BUCKET=b MODEL_S3_PATH_ROOT=r PYTHONHASHSEED=0"
 cd $WT || exit 2
 git -C $WT checkout -q -- src
